@@ -43,6 +43,12 @@ func (o Op) String() string {
 		s += fmt.Sprintf("(k=%d)", o.Key)
 	case "sleep", "advance":
 		s += "(" + durStr(o.Dur) + ")"
+	case "restart":
+		s += "(down=" + durStr(o.Dur)
+		if o.Cost > 0 && o.Cost < 100 {
+			s += fmt.Sprintf(",torn=%d%%", o.Cost)
+		}
+		s += ")"
 	case "stall":
 		s += "(" + o.Site + "," + durStr(o.Dur) + ")"
 	case "range":
@@ -201,6 +207,19 @@ type SecRec struct { // secondary-store call
 	Task   int    `json:"task"`
 }
 
+// RestartRec: one save / close / downtime / new cache / load cycle (op "restart").
+type RestartRec struct {
+	SaveSeq  uint64 // SaveCache had returned
+	SaveT    int64
+	LoadSeq  uint64 // new cache built, LoadCache about to start
+	LoadT    int64
+	DoneSeq  uint64 // LoadCache had returned
+	DoneT    int64
+	Torn     bool
+	LoadErr  bool
+	Restored *Snap // white-box snapshot of the new cache right after LoadCache
+}
+
 type Violation struct {
 	Sig    string `json:"sig"`    // <property>/<rule>/<facts>
 	Detail string `json:"detail"` // human-readable
@@ -212,6 +231,8 @@ type RunData struct {
 	Listener     []LRec
 	Loader       []LdRec
 	Sec          []SecRec
+	Restarts     []RestartRec
+	LoaderN      int
 	AsyncErrs    int
 	Snaps        map[string]*Snap
 	SnapAt       map[string]uint64
@@ -258,6 +279,19 @@ func (rd *RunData) violate(sig, detail string) {
 		}
 	}
 	rd.Monitor = append(rd.Monitor, Violation{sig, detail})
+}
+
+// restoredVal: was value v resident in the new cache right after the LoadCache of restart rs?
+func (rd *RunData) restoredVal(rs RestartRec, v int64) (int, bool) {
+	if rs.Restored == nil {
+		return 0, false
+	}
+	for _, e := range rs.Restored.Resident {
+		if e.Value == v {
+			return e.Key, true
+		}
+	}
+	return 0, false
 }
 
 func sortedRecs(rs []Rec) []Rec {
